@@ -47,6 +47,7 @@ class Ctx:
         self.decision_log: list = []  # (where, cond repr, outcome)
         self._idx = itertools.count()
         self.forall_facts: list = []
+        self.events: list = []
 
     # facts ------------------------------------------------------------------------
     def assume(self, t):
